@@ -219,6 +219,17 @@ def _drive(mod, tier, seed, max_examples, t_end, on_case, fail_pred=None, shrink
     return state
 
 
+def _quiet_stderr():
+    """tqdm progress bars of the code under test go to fd 2; keep the logs readable."""
+    if os.environ.get("VT_DEBUG"):
+        return
+    try:
+        devnull = os.open(os.devnull, os.O_WRONLY)
+        os.dup2(devnull, 2)
+    except OSError:
+        pass
+
+
 def _shard(args):
     """Worker: run one shard; returns a list of compact records."""
     pid, tier, seed, shard, nshards, max_examples, time_s, grid_mode = args
@@ -228,6 +239,7 @@ def _shard(args):
 
     logging.disable(logging.CRITICAL)
     warnings.filterwarnings("ignore")
+    _quiet_stderr()
     mod = importlib.import_module(f"vt.props.{pid.lower()}")
     t_end = time.time() + time_s
     records: List[dict] = []
@@ -476,10 +488,10 @@ def main(argv=None) -> int:
         pid, tier = argv[0], (argv[1] if len(argv) > 1 else os.environ.get("VERIF_TIER", "quick"))
         return run_property(pid.upper(), tier)
     except HarnessError as exc:
-        print(f"HARNESS ERROR: {exc}", file=sys.stderr)
+        print(f"HARNESS ERROR: {exc}")
         return 2
     except Exception:  # noqa: BLE001
-        traceback.print_exc()
+        print("HARNESS ERROR: " + traceback.format_exc())
         return 2
 
 
